@@ -317,6 +317,16 @@ func c05RunHalfPipes(rec *kit.Rec, cs c05Case) {
 	}
 	c05Check(rec, label, client, clientStream, covert, atomic.LoadInt64(&stats.BytesUp), "up")
 	c05Check(rec, label, covert, covertStream, client, atomic.LoadInt64(&stats.BytesDown), "down")
+	// Nothing was made to fail and the covert side never ends by itself: the only event that can end this relay is the
+	// client's end of stream.  "Forwards … up to the point where one side fails" then means that the upload direction read
+	// the client's stream to its end (and, by the check above, delivered all of it).
+	if len(cs.Faults) == 0 && cs.CovertEnd == "stall" && cs.ClientEnd != "stall" {
+		_, _, nread := client.Consumed()
+		if term := client.State().TerminalReadErr; nread < len(clientStream) || term != io.EOF {
+			rec.Violation("relay:up:ended-although-neither-side-failed", "the relay stopped reading a healthy source although neither connection had failed or ended",
+				map[string]interface{}{"case": label, "read": nread, "client_sent": len(clientStream), "first_read_error": fmt.Sprint(term), "client_ops": opsTail(client)})
+		}
+	}
 
 	rec.Count("evaluations", 1)
 	rec.Count("bytes_relayed", len(covert.Written())+len(client.Written()))
@@ -421,6 +431,26 @@ func TestVerifC05HalfPipe(t *testing.T) {
 			for _, ch := range [][]int{{}, {8}} {
 				c05RunHalfPipes(rec, c05Case{ClientChunks: ch, CovertChunks: ch, CovertEnd: "stall", ClientEnd: "stall", Faults: []c05Fault{{side, "dl-err", pos}}})
 			}
+		}
+	}
+	// reads that return (0, nil) – io.Reader allows them ("nothing happened"), record-oriented wrapping transports produce
+	// them for keep-alive records – interspersed with data, a few and many per direction: nothing failed, so every byte
+	// must arrive (added after seeded change C05-O: a guard that counts empty reads over the tunnel's whole lifetime)
+	emptyish := func(n, k int) []int {
+		var c []int
+		for i := 0; i < n; i++ {
+			for j := 0; j < k; j++ {
+				c = append(c, 0)
+			}
+			c = append(c, 12)
+		}
+		return append(c, 0)
+	}
+	for _, ch := range [][]int{emptyish(3, 1), emptyish(40, 3), emptyish(150, 1), emptyish(300, 2), emptyish(1100, 1)} {
+		for _, e := range ends {
+			c05RunHalfPipes(rec, c05Case{ClientChunks: ch, CovertChunks: chunkings[3], CovertEnd: e})
+			c05RunHalfPipes(rec, c05Case{ClientChunks: chunkings[3], CovertChunks: ch, CovertEnd: e})
+			c05RunHalfPipes(rec, c05Case{ClientChunks: ch, CovertChunks: ch, CovertEnd: e, Faults: []c05Fault{{"covert", "r-data+eof", len(ch) - 2}}})
 		}
 	}
 	// pairs
